@@ -73,18 +73,20 @@ def parse(text):
             v = [int(x) for x in l.split()[1:]]
             rounds.append({"round": v[0], "addr": v[1], "inactive": v[2], "nsub": v[3], "nctl": v[4], "nitems": v[5], "wq": v[6],
                            "st0": v[7], "st1": v[8], "seq0": v[9], "seq1": v[10], "ran": v[11], "ok": v[12], "nsusp": v[13],
-                           "nres": v[14], "nact": v[15], "deep": v[16], "side": v[17], "role": v[18]})
+                           "nres": v[14], "nact": v[15], "deep": v[16], "side": v[17], "role": v[18], "wq_end": v[19] if len(v) > 19 else v[6]})
     return lay, rounds, per
 
 
 class Obs:
-    __slots__ = ("k", "a", "b", "seq", "line", "thr", "idx")
+    __slots__ = ("k", "a", "b", "seq", "line", "thr", "idx", "side")
 
     def __init__(self, k, a, b, seq, line, thr):
-        self.k, self.a, self.b, self.seq, self.line, self.thr, self.idx = k, a, b, seq, line, thr, -1
+        self.k, self.a, self.b, self.seq, self.line, self.thr, self.idx, self.side = k, a, b, seq, line, thr, -1, None
 
     def coq(self):
         if self.k == "call":
+            if isinstance(self.a, tuple):
+                return "OAsync [%s]" % "; ".join(str(q) for q in self.a[1])
             return "OCall (%s)" % self.a
         if self.k == "ret":
             return "ORet"
@@ -95,6 +97,8 @@ class Obs:
         if self.k == "see":
             return "OSee %d" % self.a
         if self.k == "cas":
+            if self.side is not None:
+                return "OCasSide %d %d %d" % (self.a, self.b, self.side)
             return "OCas %d %d" % (self.a, self.b)
         return "OXor %d" % self.a
 
@@ -117,7 +121,8 @@ def normalise(lay, rd, per):
             if e.kind == 100:
                 api = e.a & 255
                 wq = e.a >> 8
-                c = {1: "CAsync %d" % wq, 2: "CSuspend", 3: "CResume", 4: "CActivate"}.get(api)
+                c = {1: ("async", sorted(set([wq, rd["wq_end"]]) if rd["inactive"] else set([wq]))), 2: "CSuspend", 3: "CResume",
+                     4: "CActivate"}.get(api)
                 if c is None:
                     notes.append("unknown api code %d" % api)
                     continue
@@ -234,7 +239,7 @@ def judge_round(lay, rd, streams, label):
     """chain + real-time oracle. returns (failures, mismatches, stats)"""
     fails, mism = [], []
     st = {"late_licensed": 0, "begins": 0, "begins_while_owed": 0, "transitions": 0, "slow_suspend": 0, "slow_resume": 0,
-          "resume_took_lock": 0, "resume_dirty_locked": 0, "finish_suspended": 0, "finish_reenqueue": 0, "unlock_suspended": 0,
+          "resume_took_lock": 0, "resume_dirty_locked": 0, "finish_reenqueue": 0, "unlock_suspended": 0,
           "lock_refused_suspended": 0, "activation_by_activate": 0, "activation_by_resume": 0, "wakeup_suspended_no_enq": 0,
           "suspend_in_callout": 0, "max_count": 0}
     trans = [o for s in streams for o in s["obs"] if o.k in ("cas", "xor")]
@@ -248,20 +253,45 @@ def judge_round(lay, rd, streams, label):
     pos = {id(e): k for k, e in enumerate(order)}
     vals = [rd["st0"]] + [e.b for e in order]        # vals[k] = word after k transitions
     SI, HS, NA, IN = lay["SI"], lay["HAS_SIDE"], lay["NA"], lay["INACTIVE"]
+    side, bad_side = 0, False      # dq_side_suspend_cnt along the chain: it only changes with the transfers, under the side lock
     for e in order:
         d = (e.b >> 58) - (e.a >> 58)
-        st["max_count"] = max(st["max_count"], e.b >> 58)
+        st["max_count"] = max(st["max_count"], (e.b >> 58) + side)
         if d == -31:
             st["slow_suspend"] += 1
+            e.side = side
+            side += 32
         elif d == 31:
             st["slow_resume"] += 1
+            e.side = side
+            side -= 32
+        # the side bit mirrors the side counter (binv: b_ssc), at every word of the chain
+        if bool(e.b & HS) != (side > 0) and not bad_side:
+            bad_side = True
+            mism.append({"what": "%s: HAS_SIDE_SUSPEND_CNT in %#x does not mirror the side counter (%d after this transfer) "
+                                 "(the model's counting invariant b_ssc)" % (label, e.b, side),
+                         "detail": {"old": e.a, "new": e.b, "line": e.line}})
+        oa, ob = e.a & 0x3fffffff, e.b & 0x3fffffff
         if suspended(lay, e.a) and not suspended(lay, e.b):
-            if e.b & 0x3fffffff:
+            if ob and not oa:
                 st["resume_took_lock"] += 1
+            elif oa and ob == oa:
+                st["resume_dirty_locked"] += 1
+        if oa and not ob and suspended(lay, e.a):
+            st["unlock_suspended"] += 1
+        if oa and not ob and not suspended(lay, e.b) and (e.b & lay["DIRTY"]) and (e.b & lay["ENQ"]):
+            st["finish_reenqueue"] += 1
+        if suspended(lay, e.a) and e.b == e.a ^ lay["ENQ"] and (e.a & lay["ENQ"]):
+            st["lock_refused_suspended"] += 1
+        if suspended(lay, e.a) and (e.b >> 55) == (e.a >> 55) and oa == ob and (e.b & lay["DIRTY"]) and not (e.b & lay["ENQ"]) \
+                and not (e.a & lay["ENQ"]) and e.b != e.a:
+            st["wakeup_suspended_no_enq"] += 1
         if (e.a & (NA | IN)) == (NA | IN) and not (e.b & (NA | IN)):
             st["activation_by_activate"] += 1
         if (e.a & NA) and not (e.a & IN) and not (e.b & NA):
             st["activation_by_resume"] += 1
+    if side != rd["side"] and not bad_side:
+        mism.append({"what": "%s: the side counter is %d at the end of the round, the transfers on the chain sum to %d" % (label, rd["side"], side)})
     # marks
     susp_ret = sorted(o.seq for s in streams for o in s["obs"] if o.k == "ret" and o.a == 2)
     res_call = sorted(o.seq for s in streams for o in s["obs"] if o.k == "call" and o.a == "CResume")
